@@ -224,6 +224,76 @@ theorem c07_listing_valid (s : State) (now : Nat) (f : Faults) (listing keys : L
           · intro x hx c hc; exact hv2 x (h3.sub x hx) c hc
           · intro x hx; exact hg2.sub x (h3.sub x hx)
 
+/-- every entry `listVisible` shows comes, blob for blob, from the key list it was given -/
+theorem listVisible_blobs (s : State) (keys : List Ident) :
+    ∀ id ∈ (listVisible s keys).2, ∃ id0 ∈ keys, id.blob = id0.blob := by
+  induction keys generalizing s with
+  | nil => intro id hid; simp [listVisible] at hid
+  | cons k r ih =>
+    intro id hid
+    unfold listVisible at hid
+    cases hb : k.blob with
+    | key n =>
+      rw [hb] at hid
+      simp only [List.mem_cons] at hid
+      rcases hid with hid | hid
+      · exact ⟨k, by simp, by rw [hid]⟩
+      · obtain ⟨id0, h0, e⟩ := ih s id hid; exact ⟨id0, List.mem_cons_of_mem _ h0, e⟩
+    | cert c =>
+      rw [hb] at hid
+      simp only [] at hid
+      split at hid
+      · obtain ⟨id0, h0, e⟩ := ih s id hid; exact ⟨id0, List.mem_cons_of_mem _ h0, e⟩
+      · split at hid
+        · obtain ⟨id0, h0, e⟩ := ih _ id hid; exact ⟨id0, List.mem_cons_of_mem _ h0, e⟩
+        · simp only [List.mem_cons] at hid
+          rcases hid with hid | hid
+          · exact ⟨k, by simp, by rw [hid, hb]⟩
+          · obtain ⟨id0, h0, e⟩ := ih s id hid; exact ⟨id0, List.mem_cons_of_mem _ h0, e⟩
+
+/-- **C07, as the client sees it.**  Whatever sequence of operations led to state `s`, whatever the
+    clock and the faults: a listing the shim agent returns contains no certificate outside its
+    validity window — neither among the in-memory hardware certificates nor among the identities
+    of the underlying agent.  (`uniq`: what the underlying agent lists has pairwise different
+    blobs.) -/
+theorem c07_list_output_valid (s : State) (now : Nat) (f : Faults) (s' : State) (ids : List Ident)
+    (uniq : ∀ u1 listing, s.u.list f = (u1, some listing) → Distinct listing)
+    (h : step s now f .list = (s', .listing ids)) :
+    ∀ id ∈ ids, ∀ c, id.blob = .cert c → validAt c now = true := by
+  simp only [step] at h
+  by_cases hlk : s.locked = true
+  · simp only [hlk, ↓reduceIte, Prod.mk.injEq, Out.listing.injEq] at h
+    obtain ⟨_, rfl⟩ := h
+    intro id hid; cases hid
+  · simp only [hlk, Bool.false_eq_true, ↓reduceIte] at h
+    cases hl : s.u.list f with
+    | mk u1 r =>
+      cases r with
+      | none =>
+        rw [c07_list_failure s now f u1 hl] at h
+        simp at h
+      | some listing =>
+        cases hf : filter s now f with
+        | mk s1 r1 =>
+          rw [hf] at h
+          cases r1 with
+          | none => simp at h
+          | some keys =>
+            simp only [Prod.mk.injEq, Out.listing.injEq] at h
+            obtain ⟨_, rfl⟩ := h
+            have hkeys := (c07_listing_valid s now f listing keys u1 s1 hl (uniq u1 listing hl) hf).1
+            have hmem := (c07_memory_purged s now f listing u1 hl).1
+            rw [hf] at hmem
+            intro id hid c hc
+            rcases List.mem_append.mp hid with hm | hv
+            · simp only [List.mem_map] at hm
+              obtain ⟨mc, hmc, rfl⟩ := hm
+              simp only [Blob.cert.injEq] at hc
+              subst hc
+              exact hmem mc hmc
+            · obtain ⟨id0, h0, e⟩ := listVisible_blobs s1 keys id hv
+              exact hkeys id0 h0 c (by rw [← e]; exact hc)
+
 /-- Non-vacuity, on the pattern that makes swap-removal delicate: three expired certificates and one
     valid one, the expired ones first, last and adjacent — the listing that comes back is exactly
     the valid certificate and the key. -/
